@@ -28,12 +28,17 @@ pub unsafe fn alloc_null(l: Layout) -> *mut u8 {
     if FORBID_ALLOC {
         vassert!(false, "NEVER: [C06,C11,C18] a request that must be served from the current chunk went to the global allocator");
     }
+    if REFUSING_CTOR {
+        vassert!(false, "NEVER: [C03,C04] a constructor that must refuse its minimum alignment obtained memory first (nothing owns the block when it panics: leak)");
+    }
     if NLOG < LOGN {
         LOG[NLOG] = (l.size(), l.align());
     }
     NLOG += 1;
     ptr::null_mut()
 }
+/// Set by harnesses in which the constructor must panic (unsupported MIN_ALIGN).
+pub static mut REFUSING_CTOR: bool = false;
 
 /// dealloc that only counts (for `&self` operations, which must never free).
 pub unsafe fn dealloc_count(_p: *mut u8, _l: Layout) {
